@@ -82,6 +82,15 @@ def gen_cases(rng, tier):
         ncalls = rng.choice([0, 1, 1, 2, 3, 5])
         calls = [[rng.random() < 0.3, gen_expr(rng, depth, p_empty)] for _ in range(ncalls)]
         out.append({"cls": rng.choice(CLASSES) if rng.random() < 0.6 else "Query", "calls": calls})
+    # long member lists for all/any (the fold is proved for every length; an implementation that pre-combines neighbours
+    # pairwise above some threshold — to stay under the recursion limit — can lose the odd tail: seeded/C19-12)
+    for n_members in ([127, 128, 129, 130, 257] if tier == "quick" else [64, 65, 100, 127, 128, 129, 130, 131, 192, 193, 255, 256, 257, 258, 300, 385]):
+        for kind in ("all", "any"):
+            # exactly n_members non-empty members (the last one such that its loss shows in the text), plus a few empties
+            members = [["atom", rng.randrange(N_ATOMS)] for _ in range(n_members - 1)] + [["atom", rng.choice([0, 1, 2, 4, 6])]]
+            for _ in range(rng.choice([0, 0, 3])):
+                members.insert(rng.randrange(len(members)), ["empty"])
+            out.append({"cls": rng.choice(CLASSES), "calls": [[rng.random() < 0.3, [kind, members]]]})
     # PostgreSQL conflict handlers have their own where(): the empty criterion must be ignored there too
     for i in range(40 if tier == "quick" else 400):
         out.append({"pgconf": rng.choice(["nothing", "update", "target"]),
